@@ -201,8 +201,11 @@ Fixpoint pg_loop (fuel : nat) (td : option transport_dict) (ad : option app_dict
           then pg_loop fuel' td ad st1 dm' (tags ++ [tag]) (get_group_fields hdr (tags ++ [tag]) ad)
           else pg_loop fuel' td ad st1 dm' tags gfields
         else if is_header_field tag td then
+          (* the body ends before a header / trailer field that ends the group: trailerBytes = bytesBeforeField *)
+          let st1 := mp_set_trailer_bytes st1 (mp_raw_bytes st) in
           Ok (mp_header_add (mp_body_add st1 dm) (t, []))
         else if is_trailer_field tag td then
+          let st1 := mp_set_trailer_bytes st1 (mp_raw_bytes st) in
           Ok (mp_set_found_trailer (mp_trailer_add (mp_body_add st1 dm) (t, [])) true)
         else
           let '(tags', gfields', in_parent) := pg_pop_loop (length tags) hdr ad tag tags gfields in
